@@ -43,6 +43,9 @@ func observe(ms *yang.Modules, set *ymodel.Set, o *ev.Outcome) (map[string][]str
 				continue
 			}
 			done[m] = true
+			if m.Kind() == "module" && m != ms.Modules[m.Name] {
+				continue // the older revision that is loaded beside the set: nothing of the set refers to it
+			}
 			for _, id := range m.Identity {
 				key := idKey(id)
 				if _, dup := out[key]; dup {
